@@ -23,7 +23,7 @@ from . import sqlfront as sf
 from . import sqlrules as sr
 from .common import AnalysisError, Ctx
 from .sqlast import N, text
-from .sqleval import _truth, ev
+from .sqleval import Unbound, _truth, ev
 
 TIME_COLS = ['start_time', 'end_time', 'rollup_time']
 COLS = TIME_COLS + ['reason']
@@ -88,10 +88,13 @@ def exec_trigger(body: List[N], old: Dict[str, Any], new: Dict[str, Any]) -> Dic
     if hit is not None:
         return dict(hit)
     new = dict(new)
+    loc: Dict[str, Any] = {}       # DECLAREd locals (typed and restricted to order-exact values by the caller's syntactic rule)
 
     def env(c: N):
         if c.kind == 'col' and len(c.parts) == 2 and c.parts[0].upper() in ('OLD', 'NEW'):
             return (old if c.parts[0].upper() == 'OLD' else new)[c.parts[1].lower()]
+        if c.kind == 'col' and len(c.parts) == 1 and c.parts[0].lower() in loc:
+            return loc[c.parts[0].lower()]
         raise AnalysisError(f'trigger reads `{text(c)}` which is not an OLD./NEW. column')
 
     def run(stmts: List[N]):
@@ -107,16 +110,122 @@ def exec_trigger(body: List[N], old: Dict[str, Any], new: Dict[str, Any]) -> Dic
                     run(st.orelse)
             elif st.kind == 'block':
                 run(st.body)
+            elif st.kind == 'declare':
+                for nm in st.names:
+                    loc[nm.lower()] = ev(st.default, env) if st.default is not None else None
             elif st.kind == 'set':
                 for t, v in st.assigns:
+                    if t.kind == 'col' and len(t.parts) == 1 and t.parts[0].lower() in loc:
+                        loc[t.parts[0].lower()] = ev(v, env)
+                        continue
                     if not (t.kind == 'col' and len(t.parts) == 2 and t.parts[0].upper() == 'NEW'):
                         raise AnalysisError(f'trigger assigns `{text(t)}`')
                     new[t.parts[1].lower()] = ev(v, env)
             else:
                 raise AnalysisError(f'attempts_before_update: unsupported statement {st.kind}')
-    run(body)
+    try:
+        run(body)
+    except (Unbound, TypeError) as e:
+        raise AnalysisError(f'attempts_before_update: expression outside the evaluated fragment ({e})')
     _exec_cache[key] = dict(new)
     return new
+
+
+# ----------------------------------------------------------------------------------------------------
+# which trigger expressions are functions of the ordering / NULL pattern alone
+# ----------------------------------------------------------------------------------------------------
+# A value expression is *order-exact* when it returns one of its timestamp inputs (or NULL) chosen by comparisons and IS NULL tests of
+# those inputs: columns, NULL, GREATEST / LEAST (NULL if any argument is NULL), COALESCE / IFNULL (first non-NULL), IF(cond, a, b),
+# CASE.  Its result in an ordering class is then the same input for every numeric realisation of the class, so the finite order domain
+# stays exact.  Arithmetic, numeric literals, other functions, truthiness of a timestamp, ordering of texts are not.
+_SELECT_FUNCS = ('GREATEST', 'LEAST', 'COALESCE', 'IFNULL', 'IF')
+
+
+def _unify(ts: Sequence[str], what: N, where: str) -> str:
+    kinds = {t for t in ts if t != 'null'}
+    if len(kinds) > 1:
+        raise AnalysisError(f'{where}: `{text(what)}` mixes timestamps and text (order abstraction not applicable)')
+    return kinds.pop() if kinds else 'null'
+
+
+def order_exact_value(e: N, where: str, col_ok: Callable[[N], Optional[str]]) -> str:
+    """Type ('time' | 'text' | 'null') of an order-exact value expression; AnalysisError if it is not one.
+    col_ok(col node) returns 'time' / 'text' for a column the domain models, None otherwise."""
+    k = e.kind
+    if k == 'col':
+        t = col_ok(e)
+        if t is None:
+            raise AnalysisError(f'{where} reads `{text(e)}`; only OLD./NEW. start_time, end_time, rollup_time, reason (and typed locals) are modelled')
+        if t == 'bool':
+            raise AnalysisError(f'{where}: boolean `{text(e)}` used as a value (order abstraction not applicable)')
+        return t
+    if k == 'lit':
+        if e.value is None:
+            return 'null'
+        if isinstance(e.value, str):
+            return 'text'
+        raise AnalysisError(f'{where}: numeric / boolean literal `{text(e)}` used as a value (order abstraction not applicable)')
+    if k == 'bin' and e.op in ('+', '-', '*', '/', 'DIV', '%', 'MOD'):
+        raise AnalysisError(f'{where}: arithmetic on timestamps `{text(e)}` (order abstraction not applicable)')
+    if k == 'func' and e.name in ('GREATEST', 'LEAST') and e.args:
+        ts = [order_exact_value(a, where, col_ok) for a in e.args]
+        if _unify(ts, e, where) == 'text':
+            raise AnalysisError(f'{where}: `{text(e)}` orders text values (collation not modelled)')
+        return 'null' if 'null' in ts else 'time'
+    if k == 'func' and e.name in ('COALESCE', 'IFNULL') and e.args:
+        return _unify([order_exact_value(a, where, col_ok) for a in e.args], e, where)
+    if k == 'func' and e.name == 'IF' and len(e.args) == 3:
+        order_exact_cond(e.args[0], where, col_ok)
+        return _unify([order_exact_value(a, where, col_ok) for a in e.args[1:]], e, where)
+    if k == 'case':
+        if e.arg is not None:
+            bt = order_exact_value(e.arg, where, col_ok)
+            for c, _ in e.whens:
+                _unify([bt, order_exact_value(c, where, col_ok)], e, where)
+        else:
+            for c, _ in e.whens:
+                order_exact_cond(c, where, col_ok)
+        vals = [v for _, v in e.whens] + ([e.default] if e.default is not None else [])
+        return _unify([order_exact_value(v, where, col_ok) for v in vals], e, where)
+    raise AnalysisError(f'{where}: `{text(e)}` outside the analysed fragment (order abstraction not applicable)')
+
+
+def order_exact_cond(c: N, where: str, col_ok: Callable[[N], Optional[str]]) -> None:
+    """A condition decided by the ordering / NULL pattern of the timestamps and by equality of reason texts."""
+    k = c.kind
+    if (k == 'col' and col_ok(c) == 'bool') or (k == 'lit' and isinstance(c.value, bool)):
+        return
+    if k == 'bin' and c.op in ('AND', 'OR'):
+        order_exact_cond(c.left, where, col_ok)
+        order_exact_cond(c.right, where, col_ok)
+        return
+    if k == 'un' and c.op == 'NOT':
+        order_exact_cond(c.arg, where, col_ok)
+        return
+    if k == 'isnull':
+        order_exact_value(c.arg, where, col_ok)
+        return
+    if k == 'bin' and c.op in ('=', '!=', '<', '<=', '>', '>=', '<=>'):
+        t = _unify([order_exact_value(c.left, where, col_ok), order_exact_value(c.right, where, col_ok)], c, where)
+        if t == 'text' and c.op not in ('=', '!=', '<=>'):
+            raise AnalysisError(f'{where}: `{text(c)}` orders text values (collation not modelled)')
+        return
+    if k == 'in' and isinstance(c.items, list):
+        _unify([order_exact_value(c.arg, where, col_ok)] + [order_exact_value(i, where, col_ok) for i in c.items], c, where)
+        return
+    raise AnalysisError(f'{where}: condition `{text(c)}` outside the analysed fragment (order abstraction not applicable)')
+
+
+def local_type(sql_type: str) -> Optional[str]:
+    """Abstract type of a DECLAREd trigger local: 'time' (integer types: holds a timestamp), 'text', 'bool'; None: not modelled."""
+    t = sql_type.upper().split('(')[0].split()[0] if sql_type else ''
+    if t in ('BIGINT', 'INT', 'INTEGER'):
+        return 'time'
+    if t in ('VARCHAR', 'CHAR', 'TEXT'):
+        return 'text'
+    if t in ('BOOLEAN', 'BOOL', 'TINYINT'):
+        return 'bool'
+    return None
 
 
 def zeroing_reasons(body: List[N]) -> Dict[str, List[str]]:
@@ -238,9 +347,9 @@ class ValueEval:
             return self.forms(e.args[1] if self.cond(e.args[0]) else e.args[2])
         if k == 'func' and e.name == 'NULLIF' and len(e.args) == 2:
             return NULLV if self.cond(N('bin', op='=', left=e.args[0], right=e.args[1])) else self.forms(e.args[0])
-        if k == 'case' and e.arg is None:
+        if k == 'case':
             for c, v in e.whens:
-                if self.cond(c):
+                if self.cond(c if e.arg is None else N('bin', op='=', left=e.arg, right=c)):
                     return self.forms(v)
             return self.forms(e.default) if e.default is not None else NULLV
         raise AnalysisError(f'attempt column assigned `{text(e)}`: not an expression over reported timestamps that the order abstraction can follow')
@@ -307,6 +416,13 @@ class ValueEval:
                 return None
             s = self._sign(a, b, c)
             return {'=': s == 0, '!=': s != 0, '<>': s != 0, '<': s < 0, '<=': s <= 0, '>': s > 0, '>=': s >= 0}[c.op]
+        if k == 'in' and isinstance(c.items, list) and c.items:
+            # a IN (x, ...)  ==  a = x OR ...   (three-valued), NOT IN its negation
+            acc: Optional[bool] = False
+            for it in c.items:
+                r = self.cond3(N('bin', op='=', left=c.arg, right=it))
+                acc = True if (acc is True or r is True) else (None if (acc is None or r is None) else False)
+            return (None if acc is None else not acc) if c.negated else acc
         raise AnalysisError(f'condition `{text(c)}` inside an attempt column expression is outside the analysed fragment')
 
     def _any(self, e: N) -> Any:
@@ -361,10 +477,52 @@ class Writer:
                 return n
         return None
 
+    def _text_symbols(self) -> Set[str]:
+        """Symbols that carry text: the one copied into `reason`, and every symbol a time-column expression compares with a string literal
+        or with the reason column.  The literals found are recorded in reason_lits (they partition the reason domain)."""
+        out: Set[str] = set()
+        for c, v in self.assigns:
+            if c == 'reason' and v.kind in ('col', 'param') and self.sym_name(v) is not None:
+                out.add(self.sym_name(v))
+
+        def is_reason_col(n: N) -> bool:
+            return n.kind == 'col' and self.sym_name(n) is None and n.parts[-1].lower() == 'reason'
+        for c, v in self.assigns:
+            if c not in TIME_COLS:
+                continue
+            for n in v.walk():
+                sides: List[N] = []
+                if n.kind == 'bin' and n.op in ('=', '!=', '<=>', '<', '<=', '>', '>='):
+                    sides = [n.left, n.right]
+                elif n.kind == 'in' and isinstance(n.items, list):
+                    sides = [n.arg] + list(n.items)
+                elif n.kind == 'case' and n.arg is not None:
+                    sides = [n.arg] + [w for w, _ in n.whens]
+                if not sides:
+                    continue
+                lits = [x.value for x in sides if x.kind == 'lit' and isinstance(x.value, str)]
+                if lits or any(is_reason_col(x) for x in sides):
+                    for x in sides:
+                        if x.kind in ('col', 'param') and self.sym_name(x) is not None:
+                            out.add(self.sym_name(x))
+                    for lit in lits:
+                        if lit not in self.reason_lits:
+                            self.reason_lits.append(lit)
+        return out
+
     def _collect(self) -> None:
         assigned: Set[str] = set()
+        self.reason_lits: List[str] = []       # string literals the SET expressions of time columns compare a reason with
+        text_syms = self._text_symbols()
+        for s in sorted(text_syms):
+            if not any(c == 'reason' and self.sym_name(v) == s for c, v in self.assigns):
+                raise AnalysisError(f'{self.wid}: a timestamp of the attempt depends on the text parameter `{s}`, which is not the reason the statement stores '
+                                    '(its values are not modelled)')
         for c, v in self.assigns:
             for n in v.walk():
+                if c in TIME_COLS and n.kind in ('col', 'param') and self.sym_name(n) in text_syms:
+                    self.rsym = self.sym_name(n)
+                    continue
                 if n.kind in ('subq', 'exists', 'select', 'uvar', 'hole'):
                     raise AnalysisError(f'{self.wid}: attempt column {c} assigned `{text(v)}` (sub-query / session variable / template hole)')
                 if n.kind == 'col':
@@ -394,6 +552,51 @@ class Writer:
             if c == 'reason' and not (v.kind in ('col', 'param') or (v.kind == 'lit' and (v.value is None or isinstance(v.value, str)))):
                 raise AnalysisError(f'{self.wid}: reason assigned a computed expression `{text(v)}`')
             assigned.add(c)
+
+    def set_where(self, where: Optional[N], attempts_aliases: Sequence[str] = ('attempts',)) -> None:
+        """Keep the WHERE conjuncts that are decided by the OLD values of the four columns and the statement's own symbols: rows they
+        reject are not updated (no transition).  Every other conjunct is ignored, i.e. assumed to let the row through."""
+        self.where_conds: List[N] = []
+        if where is None or not self.single_table:
+            return
+
+        def col_ok(n: N) -> Optional[str]:
+            s = self.sym_name(n)
+            if s is not None:
+                return 'text' if s == self.rsym else ('time' if s in self.tsyms else None)
+            if len(n.parts) == 1 or (len(n.parts) == 2 and n.parts[0].lower() in attempts_aliases):
+                col = n.parts[-1].lower()
+                return 'text' if col == 'reason' else ('time' if col in TIME_COLS else None)
+            return None
+        for c in sf.conjuncts(where):
+            if any(n.kind == 'param' and self.sym_name(n) not in self.tsyms and self.sym_name(n) != self.rsym for n in c.walk()):
+                continue
+            if not any(n.kind == 'col' and self.sym_name(n) is None and n.parts[-1].lower() in COLS for n in c.walk()):
+                continue
+            try:
+                order_exact_cond(c, self.wid, col_ok)
+            except AnalysisError:
+                continue
+            self.where_conds.append(c)
+
+    def selects(self, old: Dict[str, Any], pv: Dict[str, Any], reason: Any) -> bool:
+        """Does the UPDATE touch a row with these OLD values?  (only the conjuncts kept by set_where are consulted)"""
+        conds = getattr(self, 'where_conds', None)
+        if not conds:
+            return True
+
+        def leaf(n: N) -> Any:
+            s = self.sym_name(n)
+            if s is not None:
+                if s == self.rsym and s not in pv:
+                    return old['reason'] if reason == '<keep>' else reason
+                return pv[s]
+            return old[n.parts[-1].lower()]
+        evl = ValueEval(leaf)
+        try:
+            return all(evl.cond3(c) is True for c in conds)
+        except AnalysisError:
+            return True
 
     def add_variant(self, label: str, classes: Dict[str, str], fresh: Optional[bool], rvals: Optional[Set[Optional[str]]], provs: Optional[List['Prov']] = None) -> None:
         self.variants.append((label, classes, fresh, rvals))
@@ -469,6 +672,7 @@ def find_writers(ctx: Ctx, prog: sf.SqlProgram, rule: Optional[str] = 'R3') -> L
                         assigns.append((c.parts[-1].lower(), sr.inline_expr(v, env)))
                 if assigns:
                     w = Writer(f'sql:{name}', r.file, r.line_of(st), assigns, local_vars, single_table=len(sf.from_tables(st.frm)) == 1)
+                    w.set_where(st.where, [a_ for a_, t_ in alias.items() if t_ == 'attempts'])
                     for c in sf.conjuncts(st.where):
                         if c.kind == 'bin' and c.op == '=':
                             for x, y in ((c.left, c.right), (c.right, c.left)):
@@ -494,6 +698,7 @@ def find_writers(ctx: Ctx, prog: sf.SqlProgram, rule: Optional[str] = 'R3') -> L
                     assigns = [(c.parts[-1].lower(), v) for c, v in st.sets if c.kind == 'col' and c.parts[-1].lower() in COLS]
                     if assigns:
                         w = Writer(f'py:{rel}::{e.qual}', m.path, e.lineno, assigns, set(), single_table=len(sf.from_tables(st.frm)) == 1)
+                        w.set_where(st.where)
                         w.embedded = e          # type: ignore[attr-defined]
                         w.stmt = st             # type: ignore[attr-defined]
                         out.append(w)
@@ -1247,6 +1452,8 @@ def transitions_ex(body: List[N], w: Writer, special_reasons: Sequence[str]) -> 
             for oreason in old_reasons:
                 old['reason'] = oreason
                 for nr in new_reasons:
+                    if not w.selects(old, pv, nr):
+                        continue        # the WHERE clause rejects this row: no update, no trigger
                     new = w.written_row(old, pv, nr)
                     out = exec_trigger(body, old, new)
                     yield vi, label, dict(old), new, out, is_fresh_row(old)
